@@ -726,7 +726,12 @@ func (lh *levelHandler) searchL0SST(key []byte) (*kv.Entry, error) {
 		version uint64
 		best    *kv.Entry
 	)
-	for _, table := range lh.tables {
+	// L0 tables are ordered by file id (creation order). Walk them newest-first so
+	// that, when two tables hold the same key at the same version (non-transactional
+	// overwrites, value-log GC rewrites), the most recent write wins the tie; this
+	// matches the order L0 iterators and compactions already use.
+	for i := len(lh.tables) - 1; i >= 0; i-- {
+		table := lh.tables[i]
 		if table == nil {
 			continue
 		}
